@@ -4,6 +4,7 @@ import (
 	"context"
 	"fmt"
 	"math/big"
+	"slices"
 	"time"
 
 	awskinesis "github.com/aws/aws-sdk-go-v2/service/kinesis"
@@ -97,7 +98,16 @@ func (s *SourceSplitter) Start(ckpt *snapshotpb.SourceCheckpoint) error {
 	if err != nil {
 		return fmt.Errorf("kinesis.SourceSplitter failed to discover shards: %w", err)
 	}
-	pendingShards = append(pendingShards, s.splitTracker.AvailableSplits()...)
+	for _, available := range s.splitTracker.AvailableSplits() {
+		// The shards loaded from the checkpoint are tracked as unassigned so
+		// they are available too, don't assign them twice.
+		alreadyPending := slices.ContainsFunc(pendingShards, func(pending SourceSplitterShard) bool {
+			return pending.ShardID == available.ShardID
+		})
+		if !alreadyPending {
+			pendingShards = append(pendingShards, available)
+		}
+	}
 
 	// Do the initial split assignment
 	s.assignShards(ctx, pendingShards)
